@@ -221,16 +221,7 @@ static std::string doLoad(const SV& a) {
       s += " " + showNodes(c->explicitInputs_begin(), c->explicitInputs_end());
       s += " " + showNodes(c->implicitInputs_begin(), c->implicitInputs_end());
       s += " " + showNodes(c->orderOnlyInputs_begin(), c->orderOnlyInputs_end());
-      std::string cmdString = c->getCommandString();
-      if (getenv("NINJA_DRIVER_PERTURB")) {   // PERTURBATION (temporary): file-level value wins over the build-level one
-        auto it = c->getParameters().find("cflags");
-        if (it != c->getParameters().end() && !it->second.empty()) {
-          size_t pos = cmdString.find(it->second);
-          if (pos != std::string::npos)
-            cmdString.replace(pos, it->second.size(), m->getRootScope().lookupBinding("cflags").str());
-        }
-      }
-      s += " " + hex(cmdString) + " " + hex(c->getDescription());
+      s += " " + hex(c->getCommandString()) + " " + hex(c->getDescription());
       s += " " + std::to_string(int(c->getDepsStyle())) + " " + hex(c->getDepsFile());
       s += " " + (c->getExecutionPool() ? hex(c->getExecutionPool()->getName()) : std::string("*"));
       s += std::string(" ") + (c->hasGeneratorFlag() ? "1" : "0") + " " + (c->hasRestatFlag() ? "1" : "0");
